@@ -153,10 +153,10 @@ def gen_ser_opts(rng, kind, cli):
                         ('draw_transparent', (True,))):
             if rng.random() < 0.25:
                 kw[k] = rng.choice(vals)
-        if rng.random() < 0.25:
-            kw['title'] = rng.choice(('T', 'A <b> & "c"', 'Ünï', "it's"))
+        if rng.random() < 0.35:
+            kw['title'] = rng.choice(('T', 'A <b> & "c"', 'Ünï', "it's", '5 €', '日本 QR'))
         if rng.random() < 0.2:
-            kw['desc'] = rng.choice(('D', 'x < y', ''))
+            kw['desc'] = rng.choice(('D', 'x < y', '', 'prix: 5 €'))
         if rng.random() < 0.2:
             kw['svgid'] = rng.choice(('i1', 'my-id'))
         if rng.random() < 0.2:
@@ -170,8 +170,8 @@ def gen_ser_opts(rng, kind, cli):
             kw['unit'] = rng.choice(('mm', 'cm', 'px'))
         if rng.random() < 0.2:
             kw['svgversion'] = rng.choice((1.1, 1.2, 2.0))
-        if rng.random() < 0.15:
-            kw['encoding'] = rng.choice(('utf-8', 'iso-8859-1', 'ascii', 'UTF-8'))
+        if rng.random() < 0.25:
+            kw['encoding'] = rng.choice(('utf-8', 'iso-8859-1', 'ascii', 'UTF-8', 'iso-8859-15', 'utf-16'))
     if kind == 'png':
         if rng.random() < 0.3:
             kw['dpi'] = rng.choice((72, 96, 300, 600))
